@@ -176,9 +176,62 @@ ROOT_OPT_ARGS = [['-Dstr=changed'], ['-Dflag=false'], ['-Dnum=7'], ['-Dc=c'], ['
                  ['-Dystr=set-on-cmdline'], ['-Dc=b']]
 
 
+OPT_DIRS = ["get_option('includedir')", "get_option('datadir') / 'g@N@'", "get_option('bindir')", "get_option('libdir') / 'g@N@'",
+            "get_option('libexecdir')", "get_option('sysconfdir') / 'g@N@'", "get_option('mandir') / 'x@N@'", "get_option('datadir')"]
+LIT_DIRS = ["'lit/g@N@'", "'/abs/g@N@'", "'share/lit@N@'", "'include'"]
+
+
+def install_block(rng: random.Random, root: str, files: T.Dict[str, str]) -> T.List[str]:
+    """install rules of every shape with a different, randomly option-derived or literal, destination per output"""
+    n = [0]
+    w = 's' if root else 'r'   # output names differ between the projects (layout=flat puts them into one directory)
+
+    def d() -> str:
+        n[0] += 1
+        return rng.choice(OPT_DIRS if rng.random() < 0.55 else LIT_DIRS).replace('@N@', str(n[0]))
+    lines = []
+    for k in range(rng.randint(1, 2)):
+        nout = rng.randint(2, 4)
+        outs = [f'c15x{w}{k}_{i}.' + rng.choice(['h', 'dat', 'txt', 'so', 'bin']) for i in range(nout)]
+        dirs = [('false' if rng.random() < 0.2 else d()) for _ in range(nout)]
+        if all(x == 'false' for x in dirs):
+            dirs[rng.randrange(nout)] = d()
+        kw = f"install: true, install_dir: [{', '.join(dirs)}]"
+        if rng.random() < 0.6:
+            tags = [rng.choice(["'devel'", "'runtime'", f"'t{i}'", 'false']) for i in range(nout)]
+            kw += f", install_tag: [{', '.join(tags)}]"
+        if rng.random() < 0.3:
+            kw += ", install_mode: 'rw-r-----'"
+        lines.append(f"custom_target('c15x-{w}ct{k}', output: [{', '.join(msn(o) for o in outs)}], command: [gen, '@OUTPUT@'], {kw})")
+    files[root + 'c15x-a.txt'] = 'a\n'
+    files[root + 'c15x-b.txt'] = 'b\n'
+    files[root + 'c15x.h'] = '/* h */\n'
+    files[root + 'c15xdir/c15x2.h'] = '/* h2 */\n'
+    files[root + 'c15x.3'] = '.TH X\n'
+    files[root + 'c15xtree/f.txt'] = 'f\n'
+    files[root + 'c15xtree/in/g.txt'] = 'g\n'
+    lines.append(f"install_data('c15x-a.txt', 'c15x-b.txt', install_dir: {d()}" + (", rename: ['ra.txt', 'd/rb.txt']" if rng.random() < 0.5 else '') +
+                 (", install_tag: 'dtag'" if rng.random() < 0.5 else '') + ')')
+    r = rng.random()
+    lines.append("install_headers('c15x.h', 'c15xdir/c15x2.h'" + (", subdir: 'c15sub'" if r < 0.4 else f", install_dir: {d()}" if r < 0.7 else '') +
+                 (', preserve_path: true' if rng.random() < 0.5 else '') + ')')
+    lines.append("install_man('c15x.3'" + (", locale: 'de'" if rng.random() < 0.5 else '') + (f", install_dir: {d()}" if rng.random() < 0.3 else '') + ')')
+    lines.append(f"install_subdir('c15xtree', install_dir: {d()}" + (', strip_directory: true' if rng.random() < 0.5 else '') +
+                 (", exclude_files: ['in/g.txt']" if rng.random() < 0.4 else '') + (", install_tag: 'tree'" if rng.random() < 0.4 else '') + ')')
+    if rng.random() < 0.5:
+        lines.append(f"install_emptydir({d()} / 'c15empty')")
+    if rng.random() < 0.5:
+        lines.append(f"install_symlink('c15link', pointing_to: 'ra.txt', install_dir: {d()})")
+    return lines
+
+
 def augment_generated(rng: random.Random, spec: dict) -> T.Tuple[T.Dict[str, str], T.List[str]]:
-    """options files for a projgen project (+ option arguments that fit them)"""
+    """options files and install rules for a projgen project (+ option arguments that fit them)"""
     files = dict(spec['files'])
+    roots = [''] + ([f"subprojects/{spec['subproject']}/"] if spec.get('subproject') else [])
+    for root in roots:
+        if rng.random() < 0.8 and "find_program('gen.py')" in files.get(root + 'meson.build', ''):
+            files[root + 'meson.build'] = files[root + 'meson.build'].rstrip('\n') + '\n' + '\n'.join(install_block(rng, root, files)) + '\n'
     ropts = [o for o in ROOT_OPTION_POOL if rng.random() < 0.7]
     args: T.List[str] = []
     if ropts:
@@ -203,6 +256,9 @@ def augment_generated(rng: random.Random, spec: dict) -> T.Tuple[T.Dict[str, str
             if 'noparent' in snames and rng.random() < 0.3:
                 args.append(f'-D{sub}:noparent=given')
         r = rng.random()
+        if rng.random() < 0.3:
+            args += rng.choice([['--prefix=/opt/g', '--includedir=inc', '--datadir=/abs/share'], ['--libdir=lib64', '--bindir=b', '--mandir=mm'],
+                                ['--sysconfdir=/etc/g', '--libexecdir=lx']])
         if r < 0.2:
             args.append(f'-D{sub}:default_library=static')
         elif r < 0.3:
@@ -266,6 +322,8 @@ def run_job(job: dict, scratch: str) -> dict:
         raw = extract(src, bld, r['out'], trace, extra)
         res['raw'] = raw
         res['oracle'] = oracle_all(raw)
+        if job.get('real_install'):
+            res['oracle']['real_install'] = oracle_real_install(raw, jd)
         res['lean'] = lean_requests(raw)
     except Exception as ex:  # extraction must not die silently
         import traceback
@@ -808,6 +866,88 @@ def oracle_install(raw: dict) -> dict:
     return {'answer': f"OK|{'1' if agree else '0'}|{bs(b1)}|{bs(b2)}|{bs(b3)}|{bs(b4)}", 'violations': viol}
 
 
+def run_install(bld: str, destdir: str, extra: T.Sequence[str]) -> T.Tuple[int, str, T.Set[str], T.Set[str]]:
+    """a real `meson install --no-rebuild --destdir`; returns rc, output, files+links and directories found (as absolute install paths)"""
+    e = dict(os.environ)
+    e['PYTHONPATH'] = common.REPO
+    e['PYTHONDONTWRITEBYTECODE'] = '1'
+    e.pop('DESTDIR', None)
+    p = subprocess.run([sys.executable, os.path.join(common.REPO, 'meson.py'), 'install', '-C', bld, '--no-rebuild', '--destdir', destdir] + list(extra),
+                       env=e, stdout=subprocess.PIPE, stderr=subprocess.STDOUT, timeout=300)
+    found, dirs = set(), set()
+    for dp, dns, fns in os.walk(destdir):
+        rel = '/' + os.path.relpath(dp, destdir) if dp != destdir else ''
+        for f in fns:
+            found.add(rel + '/' + f)
+        for dn in list(dns):
+            if os.path.islink(os.path.join(dp, dn)):
+                found.add(rel + '/' + dn)
+            else:
+                dirs.add(rel + '/' + dn)
+    return p.returncode, p.stdout.decode('utf-8', errors='replace'), found, dirs
+
+
+def oracle_real_install(raw: dict, jd: str) -> dict:
+    """tie to reality: the files a real `meson install` creates under DESTDIR are the ones both install files name, also per tag and
+    with --skip-subprojects (nothing is built here: every target output is a stand-in file)"""
+    inst = raw['install']
+    prefix = inst['prefix']
+    for r in inst['recs']:
+        if r['kind'] == 't' and not os.path.lexists(r['path']):
+            os.makedirs(os.path.dirname(r['path']), exist_ok=True)
+            with open(r['path'], 'w') as fh:
+                fh.write('stand-in\n')
+    top = {o['name']: o['value'] for o in raw['observed'] if o['sub'] == ''}
+    dirs = {k: top[k] for k in DIR_OPTS if k in top and k != 'prefix'}
+    if 'libdir' in dirs:
+        dirs['libdir_shared'] = dirs['libdir_static'] = dirs['moduledir_shared'] = dirs['libdir']
+    plan = [(sect, path, e, expand_dest(dirs, prefix, e['destination'])) for sect, entries in raw['install_plan'].items() for path, e in entries.items()]
+    link_recs = [r for r in inst['recs'] if r['kind'] == 'l']
+    viol = []
+    runs = [('all', [], lambda e: True, lambda r: True)]
+    tags = sorted({e.get('tag') for _, _, e, _ in plan if e.get('tag')})
+    for t in tags[:1] + tags[-1:]:
+        runs.append((f'--tags {t}', ['--tags', t], (lambda e, t=t: e.get('tag') == t), (lambda r, t=t: r['tag'] == t)))
+    if any(e.get('subproject') for _, _, e, _ in plan):
+        runs.append(('--skip-subprojects', ['--skip-subprojects'], lambda e: not e.get('subproject'), lambda r: not r['sub']))
+    for n, (label, extra, keep, keep_rec) in enumerate(runs):
+        dest = os.path.join(jd, f'dest{n}')
+        rc, out, found, founddirs = run_install(raw['bld'], dest, extra)
+        if rc != 0:
+            viol.append(('real-install:failed', f'`meson install --no-rebuild --destdir D {" ".join(extra)}` exited {rc}: {out[-300:]}', {'run': label}))
+            continue
+        files_expected = set()
+        trees = []
+        for sect, path, e, x in plan:
+            if x is None or not keep(e):
+                continue
+            if sect == 'install_subdirs':
+                trees.append(slim(x))
+            else:
+                files_expected.add(slim(x))
+        for x in sorted(files_expected):
+            if x not in found:
+                viol.append(('real-install:planned-file-not-installed', f'[{label}] intro-install_plan.json sends something to {x!r}; a real `meson install` '
+                             f'creates no such file', {'run': label, 'destination': x}))
+        for x in trees:
+            if x not in founddirs and x not in found:
+                viol.append(('real-install:planned-subdir-not-installed', f'[{label}] intro-install_plan.json sends a directory to {x!r}; a real `meson install` '
+                             f'creates no such directory', {'run': label, 'destination': x}))
+        links = {slim(dest_used(prefix, r)) for r in link_recs if keep_rec(r)}
+        for f in sorted(found):
+            if f in files_expected or f in links or any(f.startswith(t + '/') for t in trees):
+                continue
+            viol.append(('real-install:installed-file-not-planned', f'[{label}] a real `meson install` creates {f!r}; intro-install_plan.json has no entry with '
+                         f'that destination' + ('' if label == 'all' else ' and that tag / subproject'), {'run': label, 'file': f}))
+        if label == 'all':
+            for k, v in raw['installed'].items():
+                if slim(v) not in found and slim(v) not in founddirs:
+                    viol.append(('real-install:intro-installed-destination-not-created', f'intro-installed.json maps {k!r} to {v!r}; a real `meson install` '
+                                 f'creates nothing there', {'key': k, 'value': v}))
+        common.rmtree(dest)
+    return {'answer': 'OK', 'violations': viol, 'runs': [r[0] for r in runs]}
+
+
 def oracle_options(raw: dict) -> dict:
     rows: T.Dict[str, T.List[str]] = {}
     for r in raw['buildoptions']:
@@ -862,6 +1002,10 @@ def oracle_all(raw: dict) -> dict:
 CORPUS_VARIANTS: T.Dict[str, T.List[T.Tuple[str, T.List[str], bool]]] = {
     'inst': [('default', [], False), ('prefix', ['--prefix=/opt/x', '--libdir=lib64', '--datadir=/abs/share', '--includedir=inc/x', '--mandir=man'], False),
              ('flat-static', ['--layout=flat', '-Ddefault_library=static'], False), ('bindir', ['--bindir=/usr/local/bin2', '--libexecdir=lx', '-Ddefault_library=both'], True)],
+    'instshapes': [('default', [], False),
+                   ('dirs', ['--prefix=/opt/p', '--includedir=inc', '--datadir=/abs/share', '--libdir=lib64', '--bindir=b', '--libexecdir=lx',
+                             '--sysconfdir=/etc/x', '--localstatedir=var2', '--sbindir=sb', '--mandir=mm'], False),
+                   ('flat-static', ['--layout=flat', '-Ddefault_library=static', '--includedir=include/deeper/inc'], True)],
     'instdup': [('default', [], False)],
     'tests': [('default', [], False), ('flat', ['--layout=flat'], False), ('static', ['-Ddefault_library=static', '-Dbuildtype=release'], True)],
     'opts': [('default', [], False), ('yield-parent-set', ['-Dc=c'], False),
@@ -889,7 +1033,7 @@ def make_jobs(ctx: Ctx) -> T.List[dict]:
         files, empt = corpus_files(name)
         for label, args, native in variants:
             jobs.append({'id': f'corpus-{name}-{label}', 'kind': 'corpus', 'name': name, 'label': label, 'args': args, 'native': native,
-                         'files': files, 'emptydirs': empt})
+                         'files': files, 'emptydirs': empt, 'real_install': name in ('inst', 'instshapes')})
     n_gen = ctx.scale(24, 130)
     matrix = projgen.option_matrix()
     scratch = common.scratch_dir('mverif-c15-gen-')
@@ -985,7 +1129,9 @@ def evaluate(ctx: Ctx, results: T.List[dict], jobs_by_id: T.Dict[str, dict]) -> 
             ctx.tag('native-file')
         if raw['install']['emptydirs']:
             ctx.tag('install_emptydir (not part of the property, not listed by intro-install_plan.json)')
-        for part in PARTS:
+        if 'real_install' in r['oracle']:
+            ctx.tag('real `meson install --destdir` runs', len(r['oracle']['real_install']['runs']))
+        for part in PARTS + (['real_install'] if 'real_install' in r['oracle'] else []):
             for key, what, detail in r['oracle'][part]['violations']:
                 case = dict(failing_input(r))
                 case['detail'] = detail
